@@ -102,6 +102,7 @@ let () =
         print_list "R" out
       | "D" :: rest -> print_list "R" (run_decode (List.map n_of_string rest))
       | "N" :: rest -> print_list "R" (run_encode (List.map n_of_string rest))
+      | "T" :: rest -> print_list "R" (run_timer_seq (List.map n_of_string rest))
       | [] -> ()
       | _ -> print_string "E bad request\n"; flush stdout
     done
